@@ -6,6 +6,8 @@ ASSUMPTIONS = [
     "child; all connections symbolic): every other pin of the inner net -- instance pins and pins of OTHER ports alike, which is the "
     "feed-through case -- ends up on the outer net; with one side unconnected the other net is left intact; the boundary pins are "
     "disconnected; nothing else moves; well-formed afterwards; no exception",
+    "second lemma: the same call for a TWO-pin port whose bits sit on distinct inner nets and distinct outer nets (any of them "
+    "absent): every bit is merged on its own, whatever happened for the bit before it",
     "the work-list driver of flatten(), _bring_to_top and naming are NOT executed symbolically (a whole-run attempt on a "
     "hierarchy-concrete fixture with symbolic connections did not terminate in z3 within 20 min and was dropped); 'leaf-level "
     "connectivity preserved' for whole designs is argued from the lemma in DESIGN.md, not decided",
@@ -14,4 +16,6 @@ ASSUMPTIONS = [
 
 def jobs(tier):
     return [dict(name="C09/_redo_connections", engine="E1/symheap", module="vf.e1.flatten_jobs",
-                 func="redo_connections_job", timeout=1500, args=dict(tier=tier))]
+                 func="redo_connections_job", timeout=1500, args=dict(tier=tier)),
+            dict(name="C09/_redo_connections{two-pin-port}", engine="E1/symheap", module="vf.e1.flatten_jobs",
+                 func="redo_connections_bus_job", timeout=1500, args=dict(tier=tier))]
